@@ -221,7 +221,9 @@ def run(shard, ctx):
                 for i in range(limit):
                     hist = ["%s x %d" % (v.label, i + 1)]
                     willfit = model.fits(v.length)
-                    if not do_place(ctx, bar, model, v, "C" if i % 2 else None, hist, meter):
+                    # (rests alternate between the two ways of placing one)
+                    if not do_place(ctx, bar, model, v, "C" if i % 2 else None, hist, meter,
+                                    via="place_rest" if i % 4 == 0 else "place_notes"):
                         break
                     if not willfit:
                         break
@@ -255,9 +257,17 @@ def run(shard, ctx):
             bar, model = Bar("C", meter), BarModel(meter)
             hist = []
             ok = True
-            for v in seq:
-                hist.append(v.label)
-                if not do_place(ctx, bar, model, v, rng.choice(CONTENTS), hist, meter):
+            last_as = rng.choice(["place_rest", "place_notes", "+", "any"])      # how the entry that completes the bar arrives
+            for k, v in enumerate(seq):
+                c = rng.choice(CONTENTS)
+                via = "place_rest" if c is None and rng.random() < 0.5 else "place_notes"
+                if k == len(seq) - 1 and last_as != "any":
+                    if last_as == "place_rest":
+                        c, via = None, "place_rest"
+                    elif last_as == "+" and meter[1] and v.length == Fraction(1, meter[1]):
+                        c, via = "D", "+"
+                hist.append((v.label, via))
+                if not do_place(ctx, bar, model, v, c, hist, meter, via=via):
                     ok = False
                     break
             if ok:
